@@ -1307,7 +1307,7 @@ def parameter_reader_rule(prog, res, rule='parameter-read'):
             c.done('dims.tail')
             ck.failed = ck.failed or c.failed
         else:
-            ck.bad('dims', ck.where(els[0] if els else alt), 'expected one unsigned byte per declared dimension')
+            (ck.bad if (not els or recognisable(els[0])) else ck.shape)('dims', ck.where(els[0] if els else alt), 'expected one unsigned byte per declared dimension' + ('' if not els else ', found %s' % _describe(els[0])))
     payload_reader(prog, res, rule, f, ck)
     record_suffix_reader(ck, L)
     ck.done()
